@@ -273,6 +273,14 @@ def configs(tier):
     pairs = list(_it.permutations(sets, 2))
     for pr in (pairs[:4] if tier == "quick" else pairs):
         inst2.append(dict(kind="hetero", settings=[list(x) for x in pr], mode="mcs", ts_max=0.6))
+    # fan-out: one producer read by several consumers that need different ring depths (either order: the sizing must cover the deepest reader)
+    fan = [dict(windows=[4, 1]), dict(windows=[1, 4]), dict(windows=[3, 1], rates=[30, 10, 20], mode="generational"),
+           dict(windows=[1, 2], delays=[0.004, 0.12]), dict(windows=[2, 1], third=[5, 10]), dict(windows=[2, 5], third=[1, 20], mode="topological")]
+    if tier == "thorough":
+        fan += [dict(windows=[w1, w2], rates=list(r), mode=m) for (w1, w2) in ((5, 1), (1, 5), (3, 2)) for r in ((20, 10, 10), (20, 15, 10)) for m in ("mcs", "generational")]
+        fan += [dict(windows=[4, 1], delays=[0.15, 0.004]), dict(windows=[1, 1], delays=[0.004, 0.21], third=[3, 5])]
+    for f_ in fan:
+        inst2.append(dict(dict(kind="fanout", mode="mcs", ts_max=0.5), **f_))
     if tier == "thorough":
         for tri in list(_it.permutations(sets, 3))[:8]:
             inst2.append(dict(kind="hetero", settings=[list(x) for x in tri], mode="generational", ts_max=0.6))
